@@ -6,20 +6,25 @@
     - src/daemon/http/auth/authorizer.rs:255-296    [authenticate_request]: legacy admin token, primary provider,
                                                      Unix-socket peer, with the fall-through arms `_ => next provider`
     - src/daemon/http/auth/providers/admin_token.rs:57-113   [authenticate], [login], [logout]
-    - src/daemon/http/auth/providers/config_file.rs:105-153  [auth_from_session], [authenticate]
-    - src/daemon/http/auth/providers/config_file.rs:160-276  [login]
-    - src/daemon/http/auth/providers/config_file.rs:278-301  [logout]
+    - src/daemon/http/auth/providers/config_file.rs:105-161  [auth_from_session], [authenticate]
+    - src/daemon/http/auth/providers/config_file.rs:168-286  [login]
+    - src/daemon/http/auth/providers/config_file.rs:288-311  [logout]
     - src/daemon/http/auth/providers/unix_user.rs:34-90      [new], [authenticate]
     - src/daemon/http/auth/session.rs:150-188,203-218,229-288 [encode], [cache_session], [decode], [lookup_session], [remove]
-    - src/daemon/http/auth/crypt.rs:55-82,103-183   nonce = sender id | counter; [encrypt], [decrypt], [crypt_init]
+    - src/daemon/http/auth/crypt.rs:55-82,103-186   nonce = sender id | counter; [encrypt], [decrypt], [crypt_init]
+
+    The model describes the tree with the repairs e31fb922 (F20d), a6855108 (F20b), a7a0b51d (F20c). What the
+    originally pinned tree did instead is kept in the definitions [..._pinned] at the end of the file; they are
+    only used as regression witnesses (AuthProofs.v: the positive statements are refuted for them).
 
     Outside the model, as fields of [prims] (assumptions about them are explicit hypotheses of the theorems in
     AuthProofs.v): scrypt (the password check), Unicode NFKC + trim, ChaCha20-Poly1305, serde_json, base64.
     The OpenID Connect provider is not modelled.
 
     What is abstracted away in a session: [start_time] and [expires_in]. The config-file provider issues every
-    session with [expires_in = None] (config_file.rs:268-273) and never calls [ClientSession::status]; both fields
-    are written into the token and never read again. *)
+    session with [expires_in = None] (config_file.rs:278-283) and never calls [ClientSession::status]; both fields
+    are written into the token and never read again. The role name is still written into the token
+    ([SessionSecret::role]) but no longer read when the token is presented. *)
 From Coq Require Import String Ascii.
 From KV Require Import base.Tac auth.Perm auth.Routes.
 Open Scope N_scope.
@@ -71,10 +76,11 @@ Record session := mkSess {
 }.
 
 Record prims := mkPrims {
-  p_norm : string -> string;                    (* s.trim().nfkc().collect()  (config_file.rs:187-188) *)
-  p_pw_ok : N -> string -> string -> bool;      (* stored (hash, salt); normalised name (weak salt, :199-200); normalised
-                                                   password (:188): hex(scrypt(scrypt(pw, "krill-lagosta-"+name), salt)) = hash *)
-  p_encrypt : N -> N -> bytes -> bytes;         (* key, nonce, plaintext -> nonce | tag | ciphertext (crypt.rs:103-130) *)
+  p_norm : string -> string;                    (* s.trim().nfkc().collect()  (config_file.rs:195-196) *)
+  p_pw_ok : N -> string -> string -> bool;      (* stored (hash, salt); normalised name (weak salt, :207-208); normalised
+                                                   password (:196): hex(scrypt(scrypt(pw, "krill-lagosta-"+name), salt)) = hash *)
+  p_encrypt : N -> N * N -> bytes -> bytes;     (* key, nonce = (sender id, counter), plaintext -> nonce | tag | ciphertext
+                                                   (crypt.rs:70-82, 103-130) *)
   p_decrypt : N -> bytes -> option bytes;       (* key, payload (crypt.rs:134-163; payloads of <= 28 bytes are refused) *)
   p_ser : session -> bytes;                     (* serde_json::to_string(&session) *)
   p_de : bytes -> option session;               (* serde_json::from_slice *)
@@ -86,7 +92,8 @@ Record prims := mkPrims {
 Record inst := mkInst {
   i_cfg : config;
   i_key : N;                             (* CryptState::key, persisted in storage under login_sessions/main_key *)
-  i_ctr : N;                             (* NonceState::counter: in memory only (see [start]) *)
+  i_sender : N;                          (* NonceState::sender_unique: four random bytes drawn at every start *)
+  i_ctr : N;                             (* NonceState::counter: in memory only, 0 at every start *)
   i_unix : list (string * role);         (* unix_user::AuthProvider::unix_users, resolved at start *)
   i_cache : list (string * session)      (* LoginSessionCache: token text -> session *)
 }.
@@ -102,20 +109,20 @@ Fixpoint build_unix (roles : list (string * role)) (l : list (string * string)) 
       end
   end.
 
-(** Start of a daemon on a storage that holds (or now receives) key [key]. [crypt_init] (crypt.rs:165-183) stores the
-    state once, when the key is created and the counter is 0, and reads that stored state back on every later
-    start: the counter of a restarted daemon is 0 again, the sender id is the stored one. The session cache is
-    in memory. [None]: the daemon refuses to start. *)
-Definition start (cfg : config) (key : N) : option inst :=
+(** Start of a daemon on a storage that holds (or now receives) key [key]. [crypt_init] (crypt.rs:165-186) keeps
+    the stored key and makes a new nonce state ([CryptState::from_key_bytes] -> [NonceState::new], crypt.rs:56-68):
+    a sender id [sender] drawn from the system's random generator - an input of the model - and the counter at 0.
+    The session cache is in memory. [None]: the daemon refuses to start. *)
+Definition start (cfg : config) (key sender : N) : option inst :=
   match build_unix (cf_roles cfg) (cf_unix cfg) with
-  | Some ux => Some (mkInst cfg key 0 ux [])
+  | Some ux => Some (mkInst cfg key sender 0 ux [])
   | None => None
   end.
 
 (** ** Results *)
 Inductive aerr :=
   | EInvalid      (* ApiInvalidCredentials *)
-  | EPermanent.   (* ApiAuthPermanentError: the role named in the session does not exist *)
+  | EPermanent.   (* ApiAuthPermanentError: the role of the user does not exist *)
 
 (** Result<Option<(AuthInfo, _)>, ApiAuthError> of one provider: actor name and role *)
 Inductive pres :=
@@ -140,7 +147,7 @@ Definition admin_authenticate (cfg : config) (b : option string) : pres :=
 
 Definition cache_put (tok : string) (s : session) (c : list (string * session)) := (tok, s) :: c.
 Definition set_cache (st : inst) (c : list (string * session)) : inst :=
-  mkInst (i_cfg st) (i_key st) (i_ctr st) (i_unix st) c.
+  mkInst (i_cfg st) (i_key st) (i_sender st) (i_ctr st) (i_unix st) c.
 
 (** session.rs:229-273 [decode] with add_to_cache = true: a cache hit is returned as it is; otherwise base64,
     then decryption (which verifies the tag), then JSON; the decoded session is put into the cache. *)
@@ -162,7 +169,8 @@ Definition session_decode (P : prims) (st : inst) (tok : string) : inst * option
       end
   end.
 
-(** config_file.rs:123-153 and 105-119: the role is looked up under the role name carried by the session *)
+(** config_file.rs:131-161 and 105-127: the session says who logged in; the user is looked up in the CURRENT
+    user table (gone: ApiInvalidCredentials) and the role is the one that entry names now. *)
 Definition config_authenticate (P : prims) (st : inst) (b : option string) : inst * pres :=
   match b with
   | None => (st, POk None)
@@ -170,9 +178,13 @@ Definition config_authenticate (P : prims) (st : inst) (b : option string) : ins
       match session_decode P st t with
       | (st', None) => (st', PErr EInvalid)
       | (st', Some s) =>
-          match alookup (s_role s) (cf_roles (i_cfg st')) with
-          | Some r => (st', POk (Some (s_user s, r)))
-          | None => (st', PErr EPermanent)
+          match alookup (s_user s) (cf_users (i_cfg st')) with               (* :111-115 *)
+          | None => (st', PErr EInvalid)
+          | Some d =>
+              match alookup (u_role d) (cf_roles (i_cfg st')) with            (* :116-126 *)
+              | Some r => (st', POk (Some (s_user s, r)))
+              | None => (st', PErr EPermanent)
+              end
           end
       end
   end.
@@ -188,32 +200,6 @@ Definition unix_authenticate (st : inst) (t : transport) : pres :=
       end
   end.
 
-(** ** The chain (authorizer.rs:255-296) *)
-Definition is_success (r : pres) : bool := match r with POk (Some _) => true | _ => false end.
-
-Definition primary_authenticate (P : prims) (st : inst) (b : option string) : inst * pres :=
-  match cf_auth (i_cfg st) with
-  | AdminTokenOnly => (st, admin_authenticate (i_cfg st) b)
-  | ConfigFile => config_authenticate P st b
-  end.
-
-Definition authenticate (P : prims) (st : inst) (rq : areq) : inst * ares :=
-  (* :261-264 the legacy provider exists iff the admin token provider is not the primary one (:212-232) *)
-  let r1 := match cf_auth (i_cfg st) with
-            | ConfigFile => admin_authenticate (i_cfg st) (rq_bearer rq)
-            | AdminTokenOnly => POk None
-            end in
-  (* :269-272 anything but a success - an error too - goes on to the primary provider *)
-  let '(st', r2) := if is_success r1 then (st, r1) else primary_authenticate P st (rq_bearer rq) in
-  (* :276-279 anything but a success - an error too - goes on to the Unix-socket provider *)
-  let r3 := if is_success r2 then r2 else unix_authenticate st' (rq_tr rq) in
-  (* :282-291 *)
-  (st', match r3 with
-        | POk (Some (u, r)) => AUser u r
-        | POk None => AAnon
-        | PErr e => AErr e
-        end).
-
 (** ** Login (POST /auth/login -> Authorizer::login -> primary provider) *)
 Inductive lres :=
   | LOk (tok id role : string)    (* 200: LoggedInUser { token, id, attributes.role } *)
@@ -222,34 +208,36 @@ Inductive lres :=
   | LPermanent                    (* 401 ApiAuthPermanentError: the user's role does not exist *)
   | LPanic.                       (* hex::decode(user_salt).unwrap() on a salt that is not hexadecimal *)
 
-(** config_file.rs:160-276. [basic]: user name and password of the HTTP Basic header ([get_auth], :91-103). *)
+(** config_file.rs:168-286. [basic]: user name and password of the HTTP Basic header ([get_auth], :91-103).
+    Hash and salt, identity and role all come from the entry under the name AS SUBMITTED; the trimmed, NFKC-
+    normalised name only enters the weak salt. *)
 Definition config_login (P : prims) (st : inst) (basic : option (string * string)) : inst * lres :=
   match basic with
-  | None => (st, LInvalid)                                             (* :165-173 *)
+  | None => (st, LInvalid)                                             (* :173-181 *)
   | Some (name, pw) =>
       let cfg := i_cfg st in
-      let stored := alookup name (cf_users cfg) in                     (* :179-185 the RAW name *)
-      let uname := p_norm P name in                                    (* :187 *)
-      let pw' := p_norm P pw in                                        (* :188 *)
+      let stored := alookup name (cf_users cfg) in                     (* :187-193 *)
+      let uname := p_norm P name in                                    (* :195 *)
+      let pw' := p_norm P pw in                                        (* :196 *)
       match stored with
-      | None => (st, LInvalid)      (* FAKE_PASSWORD_HASH has 36 characters, hex of 32 bytes has 64: :228 always differs *)
+      | None => (st, LInvalid)      (* FAKE_PASSWORD_HASH has 36 characters, hex of 32 bytes has 64: :236 always differs *)
       | Some d =>
-          if negb (u_salt_hex d) then (st, LPanic)                     (* :211 *)
-          else if negb (p_pw_ok P (u_cred d) uname pw') then (st, LInvalid)   (* :199-233 *)
+          if negb (u_salt_hex d) then (st, LPanic)                     (* :219 *)
+          else if negb (p_pw_ok P (u_cred d) uname pw') then (st, LInvalid)   (* :207-241 *)
           else
-            match alookup uname (cf_users cfg) with                    (* :235 the NORMALISED name *)
-            | None => (st, LInvalid)                                   (* :237-242 *)
+            match alookup name (cf_users cfg) with                     (* :245 the same name again *)
+            | None => (st, LInvalid)                                   (* :247-252 *)
             | Some d2 =>
-                match alookup (u_role d2) (cf_roles cfg) with          (* :246-254 *)
+                match alookup (u_role d2) (cf_roles cfg) with          (* :256-264 *)
                 | None => (st, LPermanent)
                 | Some r =>
-                    if negb (is_allowed r Login None) then (st, LForbidden)    (* :256-263 *)
+                    if negb (is_allowed r Login None) then (st, LForbidden)    (* :266-273 *)
                     else
-                      (* :268-273, session.rs:154-188, crypt.rs:110 (nonce.next() increments the counter) *)
-                      let s := mkSess uname (u_role d2) in
-                      let tok := p_b64enc P (p_encrypt P (i_key st) (i_ctr st) (p_ser P s)) in
-                      (mkInst cfg (i_key st) (i_ctr st + 1) (i_unix st) (cache_put tok s (i_cache st)),
-                       LOk tok uname (u_role d2))
+                      (* :275-283, session.rs:154-188, crypt.rs:110 (nonce.next() increments the counter) *)
+                      let s := mkSess name (u_role d2) in
+                      let tok := p_b64enc P (p_encrypt P (i_key st) (i_sender st, i_ctr st) (p_ser P s)) in
+                      (mkInst cfg (i_key st) (i_sender st) (i_ctr st + 1) (i_unix st) (cache_put tok s (i_cache st)),
+                       LOk tok name (u_role d2))
                 end
             end
       end
@@ -262,74 +250,129 @@ Definition admin_login (st : inst) (b : option string) : inst * lres :=
   | _ => (st, LInvalid)
   end.
 
-Definition login (P : prims) (st : inst) (basic : option (string * string)) (b : option string) : inst * lres :=
+(** ** The chain, login, logout and runs, over an implementation of the config-file provider
+    [impl] collects the three places where the originally pinned tree differed from the repaired one, so that the
+    chain is written once. [repaired] is the tree as it is; [pinned] (end of the file) the tree as it was. *)
+Record impl := mkImpl {
+  im_authenticate : prims -> inst -> option string -> inst * pres;            (* config_file::AuthProvider::authenticate *)
+  im_login : prims -> inst -> option (string * string) -> inst * lres;        (* config_file::AuthProvider::login *)
+  im_keep_sender : bool      (* crypt_init returns the stored nonce state (sender id of the first start, counter 0) *)
+}.
+
+Definition repaired : impl := mkImpl config_authenticate config_login false.
+
+Definition is_success (r : pres) : bool := match r with POk (Some _) => true | _ => false end.
+
+Definition primary_authenticate_with (I : impl) (P : prims) (st : inst) (b : option string) : inst * pres :=
   match cf_auth (i_cfg st) with
-  | AdminTokenOnly => admin_login st b
-  | ConfigFile => config_login P st basic
+  | AdminTokenOnly => (st, admin_authenticate (i_cfg st) b)
+  | ConfigFile => im_authenticate I P st b
   end.
 
-(** ** Logout (config_file.rs:278-301): the token is removed from the cache, then the provider's own
+(** authorizer.rs:255-296 *)
+Definition authenticate_with (I : impl) (P : prims) (st : inst) (rq : areq) : inst * ares :=
+  (* :261-264 the legacy provider exists iff the admin token provider is not the primary one (:212-232) *)
+  let r1 := match cf_auth (i_cfg st) with
+            | ConfigFile => admin_authenticate (i_cfg st) (rq_bearer rq)
+            | AdminTokenOnly => POk None
+            end in
+  (* :269-272 anything but a success - an error too - goes on to the primary provider *)
+  let '(st', r2) := if is_success r1 then (st, r1) else primary_authenticate_with I P st (rq_bearer rq) in
+  (* :276-279 anything but a success - an error too - goes on to the Unix-socket provider *)
+  let r3 := if is_success r2 then r2 else unix_authenticate st' (rq_tr rq) in
+  (* :282-291 *)
+  (st', match r3 with
+        | POk (Some (u, r)) => AUser u r
+        | POk None => AAnon
+        | PErr e => AErr e
+        end).
+
+Definition login_with (I : impl) (P : prims) (st : inst) (basic : option (string * string)) (b : option string)
+  : inst * lres :=
+  match cf_auth (i_cfg st) with
+  | AdminTokenOnly => admin_login st b
+  | ConfigFile => im_login I P st basic
+  end.
+
+(** Logout (config_file.rs:288-311): the token is removed from the cache, then the provider's own
     [authenticate] is called to log the name - which decodes the token and puts it back. Answer: always 200. *)
-Definition logout (P : prims) (st : inst) (b : option string) : inst :=
+Definition logout_with (I : impl) (P : prims) (st : inst) (b : option string) : inst :=
   match cf_auth (i_cfg st) with
   | AdminTokenOnly => st
   | ConfigFile =>
       match b with
-      | Some t => fst (config_authenticate P (set_cache st (aremove t (i_cache st))) (Some t))
+      | Some t => fst (im_authenticate I P (set_cache st (aremove t (i_cache st))) (Some t))
       | None => st
       end
   end.
 
-(** ** Runs of one storage (one key): operations and the record of what login handed out *)
+(** Runs of one storage (one key): operations and the record of what login handed out *)
 Inductive op :=
   | OLogin (basic : option (string * string)) (b : option string)
   | OAuth (rq : areq)                  (* any HTTP request: server.rs:66 authenticates every request *)
   | OLogout (b : option string)
   | OEvict (tok : string)                 (* the sweeper (session.rs:300-348) drops entries; modelled one at a time *)
-  | ORestart (cfg' : config).             (* stop; start again on the same storage, possibly with an edited configuration *)
+  | ORestart (cfg' : config) (sender' : N).   (* stop; start again on the same storage, possibly with an edited
+                                                 configuration; [sender']: the sender id the new process draws *)
 
 (** One token handed out by [config_login]. *)
 Record issue := mkIssue {
   is_tok : string;
   is_sess : session;
-  is_nonce : N;
+  is_nonce : N * N;      (* (sender id, counter) *)
   is_cfg : config        (* the configuration in force when it was issued *)
 }.
 
 (** server.rs:66: every request, whatever its route, is first authenticated through the chain (which may put a
     decoded session into the cache); only then the handler runs. The transport has no influence on the state. *)
-Definition pre (P : prims) (st : inst) (b : option string) : inst := fst (authenticate P st (mkRq b Tcp)).
+Definition pre_with (I : impl) (P : prims) (st : inst) (b : option string) : inst :=
+  fst (authenticate_with I P st (mkRq b Tcp)).
 
 (** [None]: the daemon did not come up after a restart. *)
-Definition step (P : prims) (st : inst) (o : op) : option (inst * list issue) :=
+Definition step_with (I : impl) (P : prims) (st : inst) (o : op) : option (inst * list issue) :=
   match o with
   | OLogin basic b =>
-      let st0 := pre P st b in
-      match login P st0 basic b, cf_auth (i_cfg st0) with
-      | (st', LOk tok id rn), ConfigFile => Some (st', [mkIssue tok (mkSess id rn) (i_ctr st0) (i_cfg st0)])
+      let st0 := pre_with I P st b in
+      match login_with I P st0 basic b, cf_auth (i_cfg st0) with
+      | (st', LOk tok id rn), ConfigFile =>
+          Some (st', [mkIssue tok (mkSess id rn) (i_sender st0, i_ctr st0) (i_cfg st0)])
       | (st', _), _ => Some (st', [])
       end
-  | OAuth rq => Some (fst (authenticate P st rq), [])
-  | OLogout b => Some (logout P (pre P st b) b, [])
+  | OAuth rq => Some (fst (authenticate_with I P st rq), [])
+  | OLogout b => Some (logout_with I P (pre_with I P st b) b, [])
   | OEvict tok => Some (set_cache st (aremove tok (i_cache st)), [])
-  | ORestart cfg' => match start cfg' (i_key st) with Some st' => Some (st', []) | None => None end
+  | ORestart cfg' sender' =>
+      match start cfg' (i_key st) (if im_keep_sender I then i_sender st else sender') with
+      | Some st' => Some (st', [])
+      | None => None
+      end
   end.
 
-Fixpoint run (P : prims) (st : inst) (ops : list op) : option (inst * list issue) :=
+Fixpoint run_with (I : impl) (P : prims) (st : inst) (ops : list op) : option (inst * list issue) :=
   match ops with
   | [] => Some (st, [])
   | o :: t =>
-      match step P st o with
+      match step_with I P st o with
       | None => None
       | Some (st1, l1) =>
-          match run P st1 t with
+          match run_with I P st1 t with
           | None => None
           | Some (st2, l2) => Some (st2, l1 ++ l2)
           end
       end
   end.
 
-Definition is_restart (o : op) : bool := match o with ORestart _ => true | _ => false end.
+(** ** The tree as it is *)
+Definition authenticate : prims -> inst -> areq -> inst * ares := authenticate_with repaired.
+Definition login : prims -> inst -> option (string * string) -> option string -> inst * lres := login_with repaired.
+Definition logout : prims -> inst -> option string -> inst := logout_with repaired.
+Definition pre : prims -> inst -> option string -> inst := pre_with repaired.
+Definition step : prims -> inst -> op -> option (inst * list issue) := step_with repaired.
+Definition run : prims -> inst -> list op -> option (inst * list issue) := run_with repaired.
+
+(** The sender ids drawn by the restarts of a run. *)
+Definition op_senders (ops : list op) : list N :=
+  flat_map (fun o => match o with ORestart _ s => [s] | _ => [] end) ops.
 
 (** ** What the dispatcher makes of the result (authorizer.rs:466-481, roles.rs: Role::anonymous) *)
 Definition allowed (a : ares) (p : perm) (res : option handle) : bool :=
@@ -361,3 +404,56 @@ Definition cfg_role (cfg : config) (u : string) : option role :=
   | Some d => alookup (u_role d) (cf_roles cfg)
   | None => None
   end.
+
+(** ** The originally pinned tree (before e31fb922, a6855108, a7a0b51d): regression witnesses only *)
+
+(** F20c. config_file.rs auth_from_session looked the role up under the role NAME carried by the session and never
+    consulted the user table again. *)
+Definition config_authenticate_pinned (P : prims) (st : inst) (b : option string) : inst * pres :=
+  match b with
+  | None => (st, POk None)
+  | Some t =>
+      match session_decode P st t with
+      | (st', None) => (st', PErr EInvalid)
+      | (st', Some s) =>
+          match alookup (s_role s) (cf_roles (i_cfg st')) with
+          | Some r => (st', POk (Some (s_user s, r)))
+          | None => (st', PErr EPermanent)
+          end
+      end
+  end.
+
+(** F20b. config_file.rs login looked hash and salt up under the RAW name, identity and role under the
+    NORMALISED name. *)
+Definition config_login_pinned (P : prims) (st : inst) (basic : option (string * string)) : inst * lres :=
+  match basic with
+  | None => (st, LInvalid)
+  | Some (name, pw) =>
+      let cfg := i_cfg st in
+      let uname := p_norm P name in
+      let pw' := p_norm P pw in
+      match alookup name (cf_users cfg) with
+      | None => (st, LInvalid)
+      | Some d =>
+          if negb (u_salt_hex d) then (st, LPanic)
+          else if negb (p_pw_ok P (u_cred d) uname pw') then (st, LInvalid)
+          else
+            match alookup uname (cf_users cfg) with
+            | None => (st, LInvalid)
+            | Some d2 =>
+                match alookup (u_role d2) (cf_roles cfg) with
+                | None => (st, LPermanent)
+                | Some r =>
+                    if negb (is_allowed r Login None) then (st, LForbidden)
+                    else
+                      let s := mkSess uname (u_role d2) in
+                      let tok := p_b64enc P (p_encrypt P (i_key st) (i_sender st, i_ctr st) (p_ser P s)) in
+                      (mkInst cfg (i_key st) (i_sender st) (i_ctr st + 1) (i_unix st) (cache_put tok s (i_cache st)),
+                       LOk tok uname (u_role d2))
+                end
+            end
+      end
+  end.
+
+(** F20d: [im_keep_sender = true] - crypt_init returned the nonce state stored when the key was made. *)
+Definition pinned : impl := mkImpl config_authenticate_pinned config_login_pinned true.
